@@ -53,7 +53,7 @@ def make_tasks(tier, seed, oracles, layouts=(), layout_depth=2, budget_s=None, p
     # thorough runs are bounded by a wall-clock budget: a task that hits it stops at a completed depth and is reported
     # under coverage.caps_hit (a capped run is never called exhaustive)
     if budget_s is None and tier == "thorough":
-        budget_s = float(os.environ.get("VERIF_THOROUGH_BUDGET_S", "720"))
+        budget_s = float(os.environ.get("VERIF_THOROUGH_BUDGET_S", "1200"))
     deadline_abs = time.time() + budget_s if budget_s else None
     for name, args, depth, split in plan(tier, **kw):
         scn = getattr(S, "scn_" + name)(*args)
